@@ -46,7 +46,8 @@ CLAIMED = {
        "accepted. NOT decided: LZ parsing, prices, range coder arithmetic, window arithmetic, chunk limits, output-size "
        "limiting, dictionary wrap, and therefore losslessness for all inputs/configurations. Also (LZMA2) lzma_lzma_encoder_reset() is called in lzma2_encode exactly when need_state_reset is set, and the header writer derives and clears the same flags."
        + " Further rules: (ORDER) lzma_lzma_encode commits its position bookkeeping before the in-loop rc_encode() can suspend, and the LZMA2 history reserve is applied after the LZMA encoder filled in lz_options; (OUTPOS) rc_shift_low and rc_shift_low_dummy advance *out_pos in single steps, each behind `*out_pos == out_size`; the LZ/LZMA decoder dictionary sibling rule of C03."
-       + " Round-3 rules: (WINDOW) hash-chain/binary-tree walkers stop at delta >= cyclic_size; (LIMITS) the LZMA2 chunk cut-off leaves OPTS+1 bytes; (DICTFRESH) dict->full is recomputed after dict->pos moved.",
+       + " Round-3 rules: (WINDOW) hash-chain/binary-tree walkers stop at delta >= cyclic_size; (LIMITS) the LZMA2 chunk cut-off leaves OPTS+1 bytes; (DICTFRESH) dict->full is recomputed after dict->pos moved."
+       + " LIMITS now derives the needed cut-off margin as OPTS + RC_SYMBOLS_MAX (read-ahead of one optimum run plus the output of one symbol).",
   technique="path-sensitive event-count dataflow on the CFG (exactly-once / must-precede); post-dominator must-follow; field-coverage (E-COVER) with loop-bound vs array-dimension comparison; who-may-write table; table agreement",
   ref="4/C01"),
  "C20": dict(
@@ -100,7 +101,8 @@ CLAIMED = {
        "exit with failure; xz maps errors to E_ERROR, only LZMA_UNSUPPORTED_CHECK to a warning, never downgrades the status; "
        "provenance rules of the sparse-file optimisation (exact accounting, hole before data, tail, decompress mode, regular "
        "file at end, O_APPEND restored); decoder flag construction. Byte equality across sinks/thread counts is NOT decided. Also: a zero-length write never reaches the lseek that materialises a pending hole; the decoder flags xz sets are exactly TELL_UNSUPPORTED_CHECK, CONCATENATED, IGNORE_CHECK (no FAIL_FAST)."
-       + " is_sparse examines every word of the buffer; coder_normal success rules of C17.",
+       + " is_sparse examines every word of the buffer; coder_normal success rules of C17."
+       + " The final sparse hole is materialised also when decoding failed (standard output is kept).",
   technique="finite-domain path-sensitive reachability (edge/block cuts), dominance and provenance rules over call arguments",
   ref="4/C18"),
  "C17": dict(
@@ -113,7 +115,8 @@ CLAIMED = {
        "signals_exit last; every failure return of the I/O layer sets the exit status (known finding: EPIPE branch of "
        "io_write_buf). File-system state after kill -9 is NOT decided. Also (RESULT) no bool result of an xz I/O helper is discarded; (PERFILE) file-scope state that coder_init sets conditionally is reset for every file; (EXIT) E_ERROR is sticky in set_exit_status."
        + " Further rules: every probe result (is_tty, stat) that decides skipping a file is tested."
-       + " (EOF) src_eof only where read() returned 0.",
+       + " (EOF) src_eof only where read() returned 0."
+       + " (NOFATAL) no message_fatal() is reachable while the incomplete target is open; (EINTR) an EINTR retry on a stdio stream clears its error indicator.",
   technique="finite-domain path-sensitive dataflow, must-pass/dominance rules, call-graph closure, who-may-call",
   ref="4/C17"),
  "C12": dict(
@@ -137,7 +140,8 @@ CLAIMED = {
        "the documented soft-limit escape. That estimates bound real allocations is NOT decided. Also (TERMS) the threaded decoder's admission test, cache-trimming tests and memusage report contain every accounting counter they are documented to contain; the file-info decoder passes memlimit minus the memory of the Indexes decoded so far; xz's single-threaded fallback calls hardware_threads_set(1) before re-estimating."
        + " Further rules: direct-mode clear_cache/threads_end before the single-thread decoder allocates; lz decoder reallocates the dictionary only when the size differs; memusage is reported on LZMA_MEMLIMIT_ERROR."
        + " xz compares the usage with the limit of the current operation mode."
-       + " (NEEDED) the amount compared with the hard limit before LZMA_MEMLIMIT_ERROR is what memconfig reports; (CLAMP) an order between limit members established by a clamp is re-established at every later store; (STALENEXT) memconfig uses a lazily initialised nested decoder only behind a test of coder->sequence.",
+       + " (NEEDED) the amount compared with the hard limit before LZMA_MEMLIMIT_ERROR is what memconfig reports; (CLAMP) an order between limit members established by a clamp is re-established at every later store; (STALENEXT) memconfig uses a lazily initialised nested decoder only behind a test of coder->sequence."
+       + " (SATURATE) sums of memory-usage figures that may be UINT64_MAX are saturated.",
   technique="must-pass-through (edge cut) on finite-domain product graphs, table joins, dominance rules",
   ref="4/C09"),
  "C04": dict(
